@@ -417,7 +417,22 @@ pub fn gen_hist(rng: &mut Rng, profile: Profile, size: Size) -> Plan {
         ops.push(Op::CompactRange { start: None, end: None });
         ops.push(Op::CheckAll);
     }
-    Plan { keys, opens, ops, clients: vec![], tail: vec![] }
+    tame_sampling(Plan { keys, opens, ops, clients: vec![], tail: vec![] })
+}
+
+/// With kilobyte keys a tiny read-sampling period means hundreds of samples (each a lock round trip)
+/// per iterator step, and a run of a hundred operations exceeds the step bound: keep the period at
+/// least a few entries wide.
+fn tame_sampling(mut plan: Plan) -> Plan {
+    let longest = plan.keys.iter().map(|k| k.len()).max().unwrap_or(0);
+    if longest > 256 {
+        for k in plan.opens.iter_mut() {
+            if k.read_bytes_period != 0 && k.read_bytes_period < 4 * longest {
+                k.read_bytes_period = 4 * longest;
+            }
+        }
+    }
+    plan
 }
 
 /// Block-boundary prefix for fault / crash base runs: the first WAL record is sized so that it ends
@@ -793,5 +808,5 @@ pub fn gen_conc(rng: &mut Rng, profile: ConcProfile, thorough: bool) -> (Plan, s
             tail.push(Op::Quiesce);
         }
     }
-    (Plan { keys, opens: vec![knobs], ops, clients, tail }, params)
+    (tame_sampling(Plan { keys, opens: vec![knobs], ops, clients, tail }), params)
 }
